@@ -29,6 +29,7 @@ ASSUMPTIONS = ['float64 operands; NumPy reduction order differs from the model f
                'ties of max/min: the first arg-max (NumPy) is the subgradient both sides select; any other valid subgradient of '
                'the implementation is accepted by the comparison']
 TRUSTED_BASE = ['harness/tprog.py, harness/gen_ops.py']
+TRUSTED_BASE = TRUSTED_BASE + ['harness/formulas.py (reading of the elementwise kernels of cpu_ops.py as Lean terms, Generated/KernelFormulas.lean; validated at Float on every run by the `formula` family)', 'harness/array_formulas.py + lean/SynapModel/NpCalls.lean (reading of the array kernels as compositions of NumPy calls, Generated/KernelCalls.lean; what each NumPy function does is the hand-written array model)']
 # ops whose VJP theorem is not (yet) part of Props/C01.lean: modelled and corresponded only
 UNPROVED = []
 
